@@ -3,7 +3,7 @@ use orca_whirlpools_macros::wasm_expose;
 
 use crate::{
     try_apply_transfer_fee, CollectRewardQuote, CollectRewardsQuote, CoreError, PositionFacade,
-    TickFacade, TransferFee, WhirlpoolFacade, ARITHMETIC_OVERFLOW, NUM_REWARDS,
+    TickFacade, TransferFee, WhirlpoolFacade, NUM_REWARDS,
 };
 
 /// Calculate rewards owed for a position
@@ -40,12 +40,14 @@ pub fn collect_rewards_quote(
     for i in 0..NUM_REWARDS {
         let mut reward_growth: u128 = whirlpool.reward_infos[i].growth_global_x64;
         if whirlpool.liquidity != 0 {
+            // The program sets the delta to zero when this product overflows
+            // (the reward stops accruing for that interval); it does not fail.
             let reward_growth_delta = whirlpool.reward_infos[i]
                 .emissions_per_second_x64
                 .checked_mul(timestamp_delta as u128)
-                .ok_or(ARITHMETIC_OVERFLOW)?
-                / whirlpool.liquidity;
-            reward_growth += <u128>::try_from(reward_growth_delta).unwrap();
+                .map(|product| product / whirlpool.liquidity)
+                .unwrap_or(0);
+            reward_growth += reward_growth_delta;
         }
 
         let mut reward_growth_below = tick_lower.reward_growths_outside[i];
